@@ -553,9 +553,13 @@ func (c *c19) listCase(d rdesc, ctor int, name string, cas func() any, ident map
 	r.Outcome("list:" + canonKVs(got) + "@" + res.SchemaURL())
 }
 
-func (c *c19) jobPairs(space []rdesc) {
+func (c *c19) jobPairs(space []rdesc, section ...string) {
 	r := c.r
-	r.Section("pairs")
+	if len(section) > 0 {
+		r.Section(section[0])
+	} else {
+		r.Section("pairs")
+	}
 	for i := range space {
 		if r.Expired() {
 			return
@@ -1421,7 +1425,7 @@ func TestVerifC19(t *testing.T) {
 	// decode failures are reported through the global error handler: keep them off stderr
 	otel.SetErrorHandler(otel.ErrorHandlerFunc(func(error) {}))
 
-	jobs := []string{"lists", "pairs", "detect", "history"}
+	jobs := []string{"lists", "pairs", "lookalike-schemas", "detect", "history"}
 	for i := 0; i < tripleParts; i++ {
 		jobs = append(jobs, fmt.Sprintf("triples/%02d", i))
 	}
@@ -1471,6 +1475,13 @@ func TestVerifC19(t *testing.T) {
 			c.jobLists(listLen)
 		case job == "pairs":
 			c.jobPairs(space)
+		case job == "lookalike-schemas":
+			// schema URLs are compared as they are written: URLs that only look alike (a trailing slash,
+			// upper-case host or path, a trailing space) differ, so merging them is a conflict -- all
+			// ordered pairs over a small attribute space
+			look := []string{c19s1, c19s1 + "/", strings.ToUpper(c19s1[:14]) + c19s1[14:], strings.ToUpper(c19s1), c19s1 + " "}
+			r.Bound("lookalike_schema_urls", look)
+			c.jobPairs(resourceSpace([]string{"a", "b"}, 2, 1, look, false), job)
 		case job == "detect":
 			c.jobDetect(detKindsN, detLen)
 		case job == "history":
